@@ -59,6 +59,8 @@ type Exec struct {
 	usedUnknown map[string]bool
 	usedContracts map[string]bool
 	aborted bool
+	curCall ssa.Instruction
+	siteOrd map[*ssa.Function]map[ssa.Instruction]int
 	lemmaKey string
 	pendingBinds []Val
 	pendingFn *ssa.Function
